@@ -7,6 +7,7 @@ package main
 import (
 	"fmt"
 	"go/ast"
+	"go/constant"
 	"go/token"
 	"go/types"
 	"strings"
@@ -166,6 +167,9 @@ func isIntegerExpr(info *types.Info, e ast.Expr) bool {
 
 // condAtoms returns the atoms implied by cond having truth value pol.
 func condAtoms(info *types.Info, c *Cond, pol bool) []Atom {
+	if c.Alts != nil {
+		return nil // disjunction: no conjunctive atoms
+	}
 	if c.Tag != nil {
 		return cmpAtoms(info, c.Tag, token.EQL, c.Expr, pol)
 	}
@@ -348,4 +352,104 @@ func atomsString(as []Atom) string {
 		s = append(s, a.String())
 	}
 	return strings.Join(s, " ∧ ")
+}
+
+// ---- boolean evaluation of path conditions under an assignment of named atoms
+
+// evalBool evaluates e under sigma (canonical expression -> value). known=false if an atom is missing.
+func evalBool(p *Program, info *types.Info, e ast.Expr, sigma map[string]bool) (val, known bool) {
+	e = unparen(e)
+	if tv, ok := info.Types[e]; ok && tv.Value != nil && tv.Value.Kind() == constant.Bool {
+		return constant.BoolVal(tv.Value), true
+	}
+	switch t := e.(type) {
+	case *ast.UnaryExpr:
+		if t.Op == token.NOT {
+			v, k := evalBool(p, info, t.X, sigma)
+			return !v, k
+		}
+	case *ast.BinaryExpr:
+		switch t.Op {
+		case token.LAND:
+			a, ka := evalBool(p, info, t.X, sigma)
+			b, kb := evalBool(p, info, t.Y, sigma)
+			if ka && !a || kb && !b {
+				return false, true
+			}
+			return a && b, ka && kb
+		case token.LOR:
+			a, ka := evalBool(p, info, t.X, sigma)
+			b, kb := evalBool(p, info, t.Y, sigma)
+			if ka && a || kb && b {
+				return true, true
+			}
+			return a || b, ka && kb
+		case token.EQL, token.NEQ:
+			if bt, ok := info.TypeOf(t.X).Underlying().(*types.Basic); ok && bt.Info()&types.IsBoolean != 0 {
+				a, ka := evalBool(p, info, t.X, sigma)
+				b, kb := evalBool(p, info, t.Y, sigma)
+				return (a == b) == (t.Op == token.EQL), ka && kb
+			}
+		}
+	case *ast.CallExpr:
+		// accessor method with a single `return <expr>` body and no arguments
+		if len(t.Args) == 0 && p != nil {
+			if fn := calleeOf(info, t); fn != nil {
+				if fi := p.FuncOfObj(fn); fi != nil && fi.Decl.Body != nil && len(fi.Decl.Body.List) == 1 {
+					if rs, ok := fi.Decl.Body.List[0].(*ast.ReturnStmt); ok && len(rs.Results) == 1 {
+						return evalBool(p, fi.Pkg.TypesInfo, rs.Results[0], sigma)
+					}
+				}
+			}
+		}
+	}
+	v, ok := sigma[canonExpr(info, e)]
+	return v, ok
+}
+
+// condHolds evaluates a guard under sigma.
+func condHolds(p *Program, info *types.Info, gd Guard, sigma map[string]bool) (holds, known bool) {
+	if gd.Cond.Alts != nil {
+		any, allKnown := false, true
+		for _, a := range gd.Cond.Alts {
+			h, k := condHolds(p, info, Guard{Cond: &Cond{Expr: a, Tag: gd.Cond.Tag}, Pol: true}, sigma)
+			if !k {
+				allKnown = false
+			} else if h {
+				any = true
+			}
+		}
+		if any {
+			return gd.Pol, true
+		}
+		return !gd.Pol, allKnown
+	}
+	if gd.Cond.Tag != nil {
+		// switch <bool> { case true: }
+		if bt, ok := info.TypeOf(gd.Cond.Tag).Underlying().(*types.Basic); ok && bt.Info()&types.IsBoolean != 0 {
+			a, ka := evalBool(p, info, gd.Cond.Tag, sigma)
+			b, kb := evalBool(p, info, gd.Cond.Expr, sigma)
+			return (a == b) == gd.Pol, ka && kb
+		}
+		return false, false
+	}
+	v, k := evalBool(p, info, gd.Cond.Expr, sigma)
+	return v == gd.Pol, k
+}
+
+// reachableUnder: do all guards of l hold under sigma? unknown guards are reported via known=false
+// (they are ignored for the verdict `holds`, i.e. treated as possibly true).
+func (g *FG) reachableUnder(l Loc, sigma map[string]bool) (holds bool, known bool) {
+	holds, known = true, true
+	for _, gd := range g.Guards(l) {
+		h, k := condHolds(g.P, g.Info, gd, sigma)
+		if !k {
+			known = false
+			continue
+		}
+		if !h {
+			holds = false
+		}
+	}
+	return
 }
